@@ -1,2 +1,88 @@
--- line-protocol driver for C02 (stub; replaced when the property is built)
-def main : IO Unit := IO.println "stub"
+import Verif.Model.OTT
+/-!
+  Line-protocol driver for C02 (one-time tokens).
+
+  `h db=0|1 chk=0|1 start=<sec> reqs=<R>;<R>;… evs=<E>,<E>,…`
+      R = `<lookupOK>:<iat|->:<idr>:<sha>:<skip>:<valid>`, idr = `k<x-hex>` | `u` (reuse) | `e` (error),
+          sha = `x<hex>`;   E = `s<thread>` | `r<start second of the new process>`
+      output: one `<answer>:<cas>` per request joined by `,` then ` n=<records in used_ott>`;
+          answer = auth | deny | drop | pend ; cas = stored | exists | none
+  `t ty=<type> parses=0|1 jti=x.. nonce=x.. derived=x.. awsvalid=0|1 sha=x..`
+      output: `id:<x-hex>` | `reuse` | `err`, then ` key=<x-hex>|none`
+-/
+open Verif Verif.Store Verif.OTT
+
+namespace C02
+
+def str? (t : String) : Option Str :=
+  if t.startsWith "x" then unhex (t.drop 1).toString else none
+
+def bool? (t : String) : Option Bool :=
+  if t = "1" then some true else if t = "0" then some false else none
+
+def lookup (kv : List (String × String)) (k : String) : Option String :=
+  (kv.find? (·.1 = k)).map (·.2)
+
+def idr? (t : String) : Option IdR :=
+  if t = "u" then some .reuse else if t = "e" then some .err
+  else if t.startsWith "k" then (str? (t.drop 1).toString).map .id else none
+
+def req? (t : String) : Option Req :=
+  match t.splitOn ":" with
+  | [lk, iat, idr, sha, skip, val] => do
+    let iat ← if iat = "-" then some none else iat.toNat?.map some
+    pure { inp := { lookupOK := (← bool? lk), iat, idr := (← idr? idr), sha := (← str? sha),
+                    skip := (← bool? skip), valid := (← bool? val) } }
+  | _ => none
+
+def ev? (t : String) : Option Ev :=
+  if t.startsWith "s" then (t.drop 1).toString.toNat?.map .step
+  else if t.startsWith "r" then (t.drop 1).toString.toNat?.map .restart else none
+
+def list? {α : Type} (sep : String) (f : String → Option α) (t : String) : Option (List α) :=
+  if t = "-" then some [] else (t.splitOn sep).mapM f
+
+def outS (r : Req) : String :=
+  let a := match r.out with
+    | .authorized => "auth" | .pending => "pend" | .dropped => "drop"
+    | .denyLookup | .denyIat | .denyUsed | .denyInvalid => "deny"
+  let c := if r.inserted then "stored" else if r.out = .denyUsed then "exists" else "none"
+  a ++ ":" ++ c
+
+def ptype? (t : String) : Option PType :=
+  match t with
+  | "jwk" => some .jwk | "x5c" => some .x5c | "sshpop" => some .sshpop | "nebula" => some .nebula
+  | "oidc" => some .oidc | "azure0" => some (.azure false) | "azure1" => some (.azure true)
+  | "aws0" => some (.aws false) | "aws1" => some (.aws true)
+  | "gcp0" => some (.gcp false) | "gcp1" => some (.gcp true)
+  | "k8ssa" => some .k8ssa | "acme" => some .acme | "scep" => some .scep
+  | _ => none
+
+def eval (line : String) : Option String := do
+  let fs := fields line
+  let kv := fs.filterMap fun f =>
+    match f.splitOn "=" with
+    | [k, v] => some (k, v)
+    | _ => none
+  match fs.head? with
+  | some "h" =>
+    let g : G := { store := [], persistent := (← bool? (← lookup kv "db")),
+                   iatCheck := (← bool? (← lookup kv "chk")), start := (← (← lookup kv "start").toNat?) }
+    let rs ← list? ";" req? (← lookup kv "reqs")
+    let evs ← list? "," ev? (← lookup kv "evs")
+    let s := machine.run (g, rs) evs
+    pure (String.intercalate "," (s.2.map outS) ++ s!" n={s.1.store.length}")
+  | some "t" =>
+    let ty ← ptype? (← lookup kv "ty")
+    let t : Tok := { parses := (← bool? (← lookup kv "parses")), jti := (← str? (← lookup kv "jti")),
+                     nonce := (← str? (← lookup kv "nonce")), derived := (← str? (← lookup kv "derived")),
+                     awsValid := (← bool? (← lookup kv "awsvalid")), sha := (← str? (← lookup kv "sha")) }
+    let r := getTokenID ty t
+    let a := match r with | .id k => "id:x" ++ hex k | .reuse => "reuse" | .err => "err"
+    let k := match useKey r t.sha with | some k => "x" ++ hex k | none => "none"
+    pure (a ++ " key=" ++ k)
+  | _ => none
+
+end C02
+
+def main : IO Unit := Verif.lineLoop fun l => (C02.eval l).getD "parse-error"
